@@ -375,7 +375,7 @@ func (g *SysGen) mvAuthorize() {
 				// an outer redirect_uri and an outer invalid parameter, independently: the redirect URI may
 				// be only inside the pushed request
 				if g.R.Intn(2) == 0 {
-					op.Params.Redirect = pick(g.R, []string{"https://evil.example/cb", a.Params.Redirect})
+					op.Params.Redirect = pick(g.R, []string{"https://evil.example/cb", a.Params.Redirect, "https://unregistered.example/cb", pick(g.R, g.client(a.Client).Redirects)})
 				}
 				if g.R.Intn(3) != 0 {
 					op.Params.Scopes = pick(g.R, []string{"admin", "openid", a.Params.Scopes})
@@ -385,7 +385,15 @@ func (g *SysGen) mvAuthorize() {
 				}
 			}
 		}
+		if a.Params.Redirect == "" && op.Params.Redirect == "" && g.R.Intn(4) != 0 {
+			if c := g.client(a.Client); c != nil && len(c.Redirects) > 0 {
+				op.Params.Redirect = pick(g.R, append([]string{"https://evil.example/cb", "https://unregistered.example/cb"}, c.Redirects...))
+			}
+		}
 		p = a.Params
+		if p.Redirect == "" {
+			p.Redirect = op.Params.Redirect
+		}
 		a.Used = true
 	}
 	o := g.do(op)
@@ -421,6 +429,9 @@ func (g *SysGen) mvPar() {
 	if g.has("WithUnregisteredRedirectURIsForPAR") && g.R.Intn(3) == 0 {
 		p.Redirect = pick(g.R, []string{"https://unregistered.example/cb", "https://other.example/x?y=1"})
 		g.W.extraTargets = append(g.W.extraTargets, p.Redirect)
+	}
+	if g.R.Intn(6) == 0 {
+		p.Redirect = "" // the redirect_uri may come with the authorization request instead
 	}
 	o := g.do(Op{Kind: "Par", Cred: g.cred(c.ID), Params: p})
 	if o.Kind == "Par" {
